@@ -13,18 +13,46 @@ def sh(cmd, timeout=7200):
     p = subprocess.run(cmd, env=ENV, stdout=subprocess.PIPE, stderr=subprocess.STDOUT, text=True, errors="replace", timeout=timeout)
     return p.returncode, p.stdout
 
+def props_for_files(files):
+    """the properties whose anchored code or whose translator (gentables*.go) reads one of the files"""
+    import glob, re
+    out = set()
+    anch = {}
+    for l in open(os.path.join(ROOT, "properties.jsonl")):
+        pr = json.loads(l); anch[pr["id"]] = set(pr["anchors"]["files"])
+    for cp in glob.glob(os.path.join(ROOT, "props", "C*.json")):
+        cfg = json.load(open(cp)); pid = cfg["id"]
+        gens = glob.glob(os.path.join(ROOT, "harness", "cmd", "hx", "gentables_%s*.go" % pid.lower()))
+        gens += [os.path.join(ROOT, "harness", "cmd", "hx", g) for g in cfg.get("go_files", []) if g.startswith("gentables")]
+        src = "".join(open(g).read() for g in gens if os.path.exists(g))
+        for f in files:
+            if f in anch.get(pid, ()) or os.path.basename(f) in src and (f in src or ('"%s"' % os.path.basename(f)) in src):
+                out.add(pid)
+    return sorted(out)
+
+
 def add(src, hid):
     dst = os.path.join(ROOT, "harmless", hid); os.makedirs(dst, exist_ok=True)
     shutil.copy(os.path.join(src, "patch.diff"), os.path.join(dst, "patch.diff"))
     m = json.load(open(os.path.join(src, "meta.json"))); m["id"] = hid
+    if "property" not in m:
+        m["check_with"] = props_for_files(m.get("files", []))
+        m["property"] = ",".join(m["check_with"])
     json.dump(m, open(os.path.join(dst, "meta.json"), "w"), indent=1)
 
 def run(hid, tier="quick"):
     dst = os.path.join(ROOT, "harmless", hid)
     m = json.load(open(os.path.join(dst, "meta.json")))
-    pid = m["property"]; t = time.time()
-    rc, out = sh([os.path.join(ROOT, "lib", "mutant_run.sh"), pid, os.path.join(dst, "patch.diff"), "--tier", tier])
-    viol = [l for l in out.splitlines() if l.startswith("VIOLATION")]
+    t = time.time()
+    pids = m.get("check_with") or [m["property"]]
+    rc, out, viol = 0, "", []
+    for pid in pids:
+        rc1, out1 = sh([os.path.join(ROOT, "lib", "mutant_run.sh"), pid, os.path.join(dst, "patch.diff"), "--tier", tier])
+        v1 = [l for l in out1.splitlines() if l.startswith("VIOLATION")]
+        if v1 or rc1 != 0:
+            rc, out = rc1, out + "\n==== " + pid + "\n" + out1
+        viol += v1
+    pid = m["property"]
     head = subprocess.run(["git", "-C", ROOT, "rev-parse", "--short", "HEAD"], stdout=subprocess.PIPE, text=True).stdout.strip()
     res = {"tier": tier, "exit": rc, "alarm": bool(viol) or rc != 0, "violation_lines": viol[:4], "wall_s": round(time.time() - t), "verif_head": head}
     if res["alarm"]:
